@@ -4,6 +4,7 @@ import (
 	"bytes"
 	"encoding/hex"
 	"fmt"
+	"io"
 
 	"github.com/libsv/go-bt/v2"
 
@@ -240,6 +241,45 @@ func c01Concat(c c01ConcatCase) (fs []rep.Finding) {
 	if rd.Len() != len(c.Trail) {
 		fs = append(fs, rep.F("reader|over-read", fmt.Sprintf("%d bytes left, want %d", rd.Len(), len(c.Trail))))
 	}
+	// the same through readers that expose nothing but Read (whole and one byte at a time)
+	for _, mode := range []string{"plain", "1byte"} {
+		under := bytes.NewReader(all)
+		var src io.Reader = plainReader{under}
+		if mode == "1byte" {
+			src = oneByteReader{under}
+		}
+		for i, rp := range refs {
+			var tx bt.Tx
+			n, err := tx.ReadFrom(src)
+			if err != nil || int(n) != rp.Used {
+				fs = append(fs, rep.F("reader-"+mode+"|tx-boundary", fmt.Sprintf("tx %d: err=%v n=%d want %d", i, err, n, rp.Used)))
+				break
+			}
+			if d := cmpTx(&tx, rp.Tx, rp.Extended); d != "" {
+				fs = append(fs, rep.F("reader-"+mode+"|field-mismatch", d))
+			}
+			rest := len(all)
+			for _, q := range refs[:i+1] {
+				rest -= q.Used
+			}
+			if under.Len() != rest {
+				fs = append(fs, rep.F("reader-"+mode+"|over-read", fmt.Sprintf("after tx %d the source has %d bytes left, want %d", i, under.Len(), rest)))
+				break
+			}
+		}
+		if cnt, ok := txref.VarIntWide(uint64(len(refs)), c.CountWidth); ok {
+			under := bytes.NewReader(append(append([]byte(nil), cnt...), all...))
+			var src io.Reader = plainReader{under}
+			if mode == "1byte" {
+				src = oneByteReader{under}
+			}
+			var txs bt.Txs
+			_, err := txs.ReadFrom(src)
+			if err != nil || len(txs) != len(refs) || under.Len() != len(c.Trail) {
+				fs = append(fs, rep.F("Txs.ReadFrom-"+mode+"|boundary", fmt.Sprintf("err=%v count=%d left=%d want %d", err, len(txs), under.Len(), len(c.Trail))))
+			}
+		}
+	}
 	// counted list
 	cnt, ok := txref.VarIntWide(uint64(len(refs)), c.CountWidth)
 	if ok {
@@ -378,6 +418,22 @@ func init() {
 			}
 		})
 		r.Note("nonminimal_seeds", len(seeds))
+		// ---- space 2a': every length/count field carrying an adversarial claim (accepted => must be a transaction)
+		sb.Each(r, func(yield func(c01BytesCase)) {
+			for _, t := range seeds {
+				for _, ext := range []bool{false, true} {
+					b, offs, widths := varintOffsets(t, ext)
+					for k := range offs {
+						for _, cl := range c09Claims {
+							m := append([]byte(nil), b[:offs[k]]...)
+							m = append(m, txref.VarInt(cl)...)
+							yield(c01BytesCase{Data: append(append([]byte(nil), m...), b[offs[k]+widths[k]:]...)})
+							yield(c01BytesCase{Data: append(append([]byte(nil), m...), 0, 0, 0, 0, 0, 0, 0, 0, 0, 0, 0, 0, 0)})
+						}
+					}
+				}
+			}
+		})
 		// ---- space 2b: restricted-alphabet strings
 		alpha := []byte{0x00, 0x01, 0x02, 0xEF, 0xFD, 0xFE, 0xFF}
 		maxL := 8
@@ -438,6 +494,10 @@ func init() {
 		})
 	}
 }
+
+type plainReader struct{ r io.Reader }
+
+func (p plainReader) Read(b []byte) (int, error) { return p.r.Read(b) }
 
 func hbs(h []HB) [][]byte {
 	o := make([][]byte, len(h))
